@@ -270,11 +270,16 @@ def run(key, k, k2, ret1, ret2, tree_mode=None, client=False, level0=3):
 
 
 def count_ticks(key, tree_mode=None):
+    """number of fault points a fault-free render reaches (sizes the fault-position ranges).  It runs at import: a code change that
+    makes this very render fail must surface as violations of the obligations (exit 1), not as a harness import error (exit 3)"""
     env = Env(0, 0, False, False)
     md = env.md
     md._push({'base': 0})
     md._push(build_ns(env, tree_mode))
-    T[key](None, md)
+    try:
+        T[key](None, md)
+    except Exception:            # noqa: B902
+        return max(env.count, 24)
     return env.count
 
 
